@@ -99,6 +99,7 @@ class HistGen(object):
             self.w.update(weights)
         self.dollar_values = 0.0
         self.slice_proj = 0.0     # share of find_one / find_one_and_* projections that hold $slice
+        self.array_keys = 0.0     # share of the fields a / b that hold an ARRAY of colliding values
         self.shadow = []          # rough picture of the documents, to aim filters and updates
         self.index_names = []
         self.now = T0
@@ -128,6 +129,11 @@ class HistGen(object):
         for f in ('a', 'b'):
             if f in d and self.r.random() < 0.5:
                 d[f] = self.r.choice([1, 2, None, 'x'])
+            if self.array_keys and self.r.random() < self.array_keys:
+                # array-valued (possibly empty, possibly mixed-type) under the keys the filters,
+                # sorts and indexes of the histories are aimed at
+                d[f] = [self.r.choice([1, 2, 3, None, 'x', 0.5])
+                        for _ in range(self.r.choice([0, 1, 2, 2, 3]))]
             if self.r.random() < self.dollar_values:
                 # a sub-document with a $-key: the uniqueness look-up built from it is not a
                 # well-formed query and raises something other than a duplicate-key error
@@ -287,6 +293,30 @@ class HistGen(object):
             return None
         keys = self.r.sample(['a', 'b', '_id'], self.r.choice([1, 1, 2]))
         return [[k, self.r.choice([1, -1])] for k in keys]
+
+    def wide_sort(self):
+        """sort specifications of 1-3 keys over top-level fields (whose values are scalars of
+        every kind, arrays, embedded documents, or absent), dotted paths, `_id` and `$natural`,
+        each key ascending or descending whatever its position: a descending key is often
+        followed by further keys, which decide among the documents that are equal on it"""
+        r = self.r
+        x = r.random()
+        if x < 0.2:
+            return None
+        if x < 0.26:
+            return [['$natural', r.choice([1, -1])]]
+        pool = ['a', 'a', 'a', 'b', 'b', 'b', 'c', 'd', '_id', 'c.d', 'a.b', 'b.a', 'zz']
+        keys = []
+        for _ in range(r.choice([1, 1, 2, 2, 3])):
+            k = r.choice(pool)
+            if k not in keys:
+                keys.append(k)
+        y = r.random()
+        if y < 0.08:
+            keys.insert(r.randrange(len(keys) + 1), '$natural')
+        elif y < 0.095:
+            keys.insert(r.randrange(len(keys) + 1), r.choice(['$meta', '$a']))
+        return [[k, r.choice([1, -1])] for k in keys]
 
     def request(self):
         r = self.r
